@@ -4,8 +4,10 @@ Proved (Props.C05 over Spec.AgreementSync, an extension of C01's Spec.AgreementA
 function): `sync_period_progress_partial` (one fresh period with an honest leader whose payload is delivered ⇒ every honest node
 commits in that period) and `sync_period_advance` (from ANY well-formed history — arbitrary asynchronous prefix — one deadline tick
 plus one fast-recovery tick ⇒ all honest nodes have committed, or all are in the next period, nobody has voted there, and their
-caches of the concluded period are equal: a common starting value).  The full statement (a bound K for every bounded-delay order,
-with the probability that a period's leader is honest) is `sync_progress_Statement`, kept visible and NOT proved.
+caches of the concluded period are equal: a common starting value); `sync_fresh_wf` / `sync_advance_wf` (the runs stay well-formed
+histories of C01's safety model) and `sync_lockstep_progress` (K = B + 1 periods in the lock-step order when one of B consecutive
+periods has a good leader).  The full statement (a bound K for every bounded-delay order, with the probability that a period's
+leader is honest) is `sync_progress_Statement`, kept visible and NOT proved.
 
 Tie (sampling, this file): NetDrive — N = 4..7 real agreement.Service instances; an arbitrary asynchronous prefix (drops,
 partitions, crashes + restores, a Byzantine minority with real keys), then the decision `sync` (the synchrony point), then a
@@ -23,6 +25,10 @@ synchronous phase under one of two schedulers (harness/agreement/zz_verif_c05_te
               threshold events, player.enterRound);
   * ACCEPT    the trace acceptor of C01 (c01abs = checkEv of the proved safety model) still accepts every (schedule, round) history
               and all EnsureBlock digests of a round agree.
+Second tie (correspondence, exhaustive small universe): TestVerifC05Player runs ONE real player + rootRouter through the timeout
+transitions (filter timeout → soft vote, deadline → next vote, fast timeout → late/redo/down, partitioned() → re-broadcast of the
+freshest bundle) for every combination of entry cache × leader × staged value × payload, and the Lean driver `c05` answers the same
+situations from the reaction functions of Spec.AgreementSync (softValue, nextValue, fastVote, partitioned); a mismatch is a violation.
 Replay = the schedule (header + decisions incl. the `sync` line), re-executed by TestVerifC05 (or TestVerifNetDrive for C01's corpus)."""
 import concurrent.futures, glob, json, os, re, sys
 import vf
@@ -162,7 +168,17 @@ def analyse(ctx, shard, stats, corpus_name=None, test="TestVerifC05"):
         stats["panics"] += 1
         if last is not None and in_service:
             after_sync = any(d.startswith("sync") for d in scheds[last][1:])
-            if stats["panics"] <= 3:
+            respin = "(*coserviceMonitor).dec" in shard["out"] and "(*demux).next" in shard["out"]
+            if respin:
+                # the package's own test accounting (coserviceMonitor) saw a clock event the harness never fired: the Service was handed a
+                # timeout channel that had already fired, i.e. the player re-armed a deadline that was not later than the expired one
+                if stats["panics"] <= 2:
+                    ctx.violation("deadlines do not increase: a node's step timeout fired again by itself — after handling a timeout the real player asked for a deadline "
+                                  "that is not later than the one that had just expired, so the node runs through its steps without waiting (detected by the agreement "
+                                  "package's coserviceMonitor inside demux.next)",
+                                  {"kind": "netdrive", "test": test, "sched": scheds[last], "corpus": corpus_name, "monitor": "deadline", "panic": shard["out"][-600:]},
+                                  found_input=True)
+            elif stats["panics"] <= 3:
                 ctx.violation(("[a cert bundle of an old period of the current round reached a garbage-collected period router] " if stale else "") +
                               "node panic %s: the real agreement code panicked inside a Service goroutine — the node is dead and cannot commit: %s; top frames: %s"
                               % ("in the synchronous phase" if after_sync else "(no synchrony point needed: the node dies on this input whenever it arrives, also after a restart)",
@@ -269,7 +285,7 @@ def report(ctx, stats, pr, replay):
 def new_stats():
     return {"schedules": 0, "synced": 0, "unsynced": 0, "histories": 0, "events": 0, "nontrivial": 0, "rejects": 0, "ensure": 0, "harness_notes": 0, "panics": 0,
             "profiles": {}, "nodes": {}, "decisions": {}, "modes": {}, "byz_active": 0, "fires_t": 0, "fires_f": 0, "dl_checked": 0, "k_dist": {}, "k_dist_byzled": {},
-            "p0_dist": {}, "how": {"ensure": 0, "catchup": 0}, "spread": {"rounds>1": 0, "periods>0": 0, "periods>1": 0, "step>cert": 0}, "samples": [], "problems": {}}
+            "p0_dist": {}, "player": {}, "how": {"ensure": 0, "catchup": 0}, "spread": {"rounds>1": 0, "periods>0": 0, "periods>1": 0, "step>cert": 0}, "samples": [], "problems": {}}
 
 
 ASSUMPTIONS = [
@@ -294,6 +310,43 @@ def run_corpus(ctx, exe, stats, tmo):
     for path in sorted(glob.glob(os.path.join(vf.VERIF, "corpus", "C05", "*.sched"))):
         sh = netdrive.run_shard(ctx, exe, "corpus-" + os.path.basename(path)[:-6], {"VERIF_REPLAY": path}, tmo, test="TestVerifC05")
         analyse(ctx, sh, stats, corpus_name=os.path.basename(path))
+
+
+def player_tie(ctx, exe, stats):
+    """single-node tie: the reaction functions of Spec.AgreementSync (driver c05) vs one real player + router on an exhaustive small
+    universe of timeout situations (TestVerifC05Player); plus the implementation-only monitor `deadline-increase`"""
+    ok, out = ctx.lean_build(["c05"])
+    if not ok:
+        ctx.tie_failures.append("driver c05 does not build: " + out[-400:])
+        return
+    sh = netdrive.run_shard(ctx, exe, "player", {}, 900, test="TestVerifC05Player")
+    opsf, implf, mf = (os.path.join(sh["dir"], n) for n in ("c05p.ops", "c05p.impl", "c05p.model"))
+    if sh["rc"] != 0 or not os.path.exists(opsf):
+        ctx.tie_failures.append("TestVerifC05Player failed to run (rc=%d): %s" % (sh["rc"], sh["out"][-500:]))
+        return
+    if ctx.driver("c05", [], opsf, mf) != 0:
+        ctx.tie_failures.append("driver c05 failed")
+        return
+    ops, impl, model = ctx.read_lines(opsf), ctx.read_lines(implf), ctx.read_lines(mf)
+    if not (len(ops) == len(impl) == len(model)) or not ops:
+        ctx.tie_failures.append("single-node tie: %d ops, %d implementation lines, %d model lines" % (len(ops), len(impl), len(model)))
+        return
+    kinds = {}
+    bad = []
+    for i, (o, a, b) in enumerate(zip(ops, impl, model)):
+        k = o.split()[0]
+        kinds[k] = kinds.get(k, 0) + 1
+        if a != b:
+            bad.append((i, o, a, b))
+    stats["player"] = {"situations": len(ops), "by_kind": kinds, "distinct_outcomes": len(set(impl)), "mismatches": len(bad)}
+    for i, o, a, b in bad[:3]:
+        if o.startswith("deadline-increase"):
+            ctx.violation("deadlines do not increase: one real player, step timeouts only, period %s: %s" % (o.split()[1], a),
+                          {"kind": "player", "ops": [o], "impl_out": a, "monitor": "deadline"}, found_input=True)
+        else:
+            ctx.violation("a timeout transition of the real player differs from the synchronous-phase model the lemmas are about (Spec.AgreementSync): situation `%s` "
+                          "(grammar: lean/AlgoVerif/Driver/C05.lean) — real player: `%s`, model: `%s`" % (o, a, b),
+                          {"kind": "player", "ops": [o], "index": i, "impl_out": a, "model_out": b}, found_input=True)
 
 
 def run_range(ctx, exe, name, lo, hi, env, timeout):
@@ -329,6 +382,10 @@ def run(ctx, replay=None):
         return
     stats = new_stats()
     tmo = 3000
+    if replay is not None and replay.get("kind") == "player":
+        player_tie(ctx, exe, stats)
+        finish_cov(ctx, stats)
+        return
     if replay is not None:
         rp = os.path.join(ctx.work, "replay.sched")
         open(rp, "w").write("\n".join(replay["sched"]) + "\n")
@@ -341,7 +398,8 @@ def run(ctx, replay=None):
         finish_cov(ctx, stats)
         return
     run_corpus(ctx, exe, stats, tmo)
-    total = ctx.budget(32, 1600)
+    player_tie(ctx, exe, stats)
+    total = ctx.budget(28, 1600)
     if not proved:
         total *= 4
     scale = os.environ.get("VERIF_BUDGET_SCALE")
@@ -359,7 +417,7 @@ def run(ctx, replay=None):
 
 
 def finish_cov(ctx, stats):
-    ctx.cov["evaluations"] = stats["synced"]
+    ctx.cov["evaluations"] = stats["synced"] + stats["player"].get("situations", 0)
     ctx.cov["distinct_nontrivial"] = stats["nontrivial"]
     ctx.cov["samples"] = stats["samples"]
     ctx.cov["distribution"] = {
@@ -370,7 +428,7 @@ def finish_cov(ctx, stats):
         "K_monitored": K_BOUND, "largest_period_at_sync": stats["p0_dist"], "state_at_sync": stats["spread"],
         "target_block_obtained_by": stats["how"], "step_timers_fired_in_sync_phase": stats["fires_t"], "fast_timers_fired_in_sync_phase": stats["fires_f"],
         "deadline_transitions_checked": stats["dl_checked"], "round_histories_accepted_by_c01abs": stats["histories"], "abstract_events": stats["events"],
-        "ensure_block_calls": stats["ensure"], "decisions": stats["decisions"], "harness_notes": stats["harness_notes"], "monitor_hits": stats["problems"]}
+        "ensure_block_calls": stats["ensure"], "single_node_tie (real player vs reaction functions of the model)": stats["player"], "decisions": stats["decisions"], "harness_notes": stats["harness_notes"], "monitor_hits": stats["problems"]}
     ctx.say("C05: %d schedules (%d with a synchrony point, %d non-trivial), periods-to-commit %s, %d deadline transitions checked, %d violations"
             % (stats["schedules"], stats["synced"], stats["nontrivial"], json.dumps(stats["k_dist"], sort_keys=True), stats["dl_checked"], len(ctx.violations)))
     if stats["schedules"] and stats["events"] == 0:
@@ -381,10 +439,10 @@ def finish_cov(ctx, stats):
 
 def replay(ctx, path):
     r = json.load(open(path))
-    if r.get("kind") != "netdrive" or not r.get("sched"):
-        run(ctx)
+    if r.get("kind") == "player" or (r.get("kind") == "netdrive" and r.get("sched")):
+        run(ctx, replay=r)
         return
-    run(ctx, replay=r)
+    run(ctx)
 
 
 if __name__ == "__main__":   # debugging aid: python3 checks/C05.py <output dir of TestVerifC05>
